@@ -135,6 +135,7 @@ func RunCheck(id string, opt Options) int {
 		}
 		if nfun > 0 {
 			e.globalReadonly(id)
+			e.fieldWriters(id)
 		}
 		e.curFunc = "lemma"
 		e.curProp = id
